@@ -38,10 +38,11 @@ PROPERTY = "C04"
 READY = True
 THEOREMS = [
     "C04.bases_std", "C04.tok_adjacent", "C04.tok_line_start", "C04.tok_monotone", "C04.tok_orig_text",
-    "C04.orig_text_exact", "C04.node_span", "C04.lex_error_line", "C04.tok_cover", "C04.tok_cover_unique",
-    "C04.end_token", "C04.node_span_unique", "C04.node_orig_text", "C04.parse_is_ll_run",
-    "C04.parse_node_span", "C04.parse_node_orig_text", "C04.parse_error_pos", "C04.lex_error_first", "C04.lex_error_complete",
-    "C04.lex_error_unique", "C04.no_out_of_fuel", "C04.ex_reIn", "C04.ex_tokens",
+    "C04.tok_provenance", "C04.orig_text_exact", "C04.node_span", "C04.lex_error_line", "C04.tok_cover",
+    "C04.tok_cover_unique", "C04.end_token", "C04.node_span_unique", "C04.node_orig_text",
+    "C04.parse_is_ll_run", "C04.parse_node_span", "C04.parse_node_orig_text", "C04.parse_error_pos",
+    "C04.lex_error_first", "C04.lex_error_complete", "C04.lex_error_unique", "C04.no_out_of_fuel",
+    "C04.ex_reIn", "C04.ex_tokens",
 ]
 RULE = ("distinct by protocol text; non-trivial = the text has at least two tokens besides $END$, or a lexical "
         "error, or more than one line")
@@ -109,6 +110,30 @@ CONFIGS = [
          fill=["\ufeff", "\u200b", "\x00", "\u00ad", "\u2060", "\xa0", "\u3000", "\r", "\t", "\u200d", " \ufeff\n"],
          extra=[], bad=["?", "\u0300", "\u202e", "\U0001F601"],
          alpha="a\u0301 ;\n\t\r\ufeff\u200b\x00\U0001F600?1"),
+    # several span kinds, two pairs of them reported under ONE synonym each, closers with a shared prefix (`*/`, `*)`):
+    # a span is closed by the matcher of its own opener, whatever name the token is reported under
+    dict(name="spans-shared-synonym",
+         pat=r"""(?P<SPACE>\s+)|(?P<DQ3>\"\"\")|(?P<SQ3>''')|(?P<C_COMMENT>/\*)|(?P<P_COMMENT>\(\*)
+                 |(?P<WORD>[a-z]+)|(?P<NUM>[0-9]+)|(?P<SEMI>;)""",
+         spans={"DQ3": r'(?P<END_DQ3>.*?)\"\"\"', "SQ3": r"(?P<END_SQ3>.*?)'''", "C_COMMENT": _ML,
+                "P_COMMENT": r"(?P<END_P>.*?)\*\)"},
+         syn={"DQ3": "ML_STRING", "SQ3": "ML_STRING", "C_COMMENT": "COMMENT", "P_COMMENT": "COMMENT"},
+         W="WORD", N="ML_STRING", S="SEMI",
+         lexW=["ab", "a"], lexN=['"""x"""', "'''y'''", '"""a\n\'\'\' b"""', "'''\n\"\"\" \n'''", '""""""',
+                                 "''' \"\"\" '''"], lexS=[";"],
+         fill=["/* x */", "(* y *)", "/* (* */", "(* /* \n */ *)", "(* a\n*)", "/* *) \n*/"],
+         extra=['"""', "'''", "(*", "*)", "*/", "12"], bad=["?", "*", "(", "'", '"'],
+         alpha="a1 ;/*()\"'\n"),
+    # token patterns that begin (or end) with a context assertion: `^`, `\b`, look-behind, `$` - what matches at a
+    # column depends on the characters BEFORE it: `pattern.match(line, col)`, not `pattern.match(line[col:])`
+    dict(name="context-assertions",
+         pat=r"""(?P<SPACE>\s+)|(?P<DIRECTIVE>^\#[a-z]+)|(?P<LBL>^[a-z]+:)|(?P<ARG>(?<=\()[0-9a-z]+(?=\)))
+                 |(?P<NUMBER>\b[0-9]+)|(?P<NEG>(?<![0-9a-z])-[0-9]+)|(?P<LAST>[a-z]+$)|(?P<WORD>[a-z]+)
+                 |(?P<COLON>:)|(?P<LP>\()|(?P<RP>\))|(?P<SEMI>;)|(?P<MINUS>-)""",
+         W="WORD", N="NUMBER", S="SEMI",
+         lexW=["ab", "cd", "a"], lexN=["12", "7"], lexS=[";"], fill=[],
+         extra=["#inc", "lab:", "(a1)", "(12)", "f(x)", "n:", ":", "(", ")", "-5", "a-5", "- 5", "ab;", "x(1);"],
+         bad=["?", "#", "ab12", "x#y", "1a2"], alpha="a1 ;:()#-\n"),
     dict(name="suite",
          pat=r"""
             (?P<SPACE>\s+)
@@ -1153,7 +1178,7 @@ LEVEL_TEXT = (
     "shape (node_span), get_orig_text of nodes, LexicalError at the first and only reachable unmatched character "
     "(line 1-based, column 0-based) and its converse, ParsingError.src_pos = start of a token, totality (fuel) of the "
     "tokenizer model. Model = code is established by a differential run of the compiled model against the real "
-    "tokenizer, get_orig_text and parser (7 configurations incl. one where BOM / NUL / zero-width characters are blanks and combining marks / astral characters are letters, texts with such characters at the start of the text, of a line, inside tokens, '\\r' and '\\r\\n' line ends; 17 grammars incl. 8 that roll back into empty / all-nullable "
+    "tokenizer, get_orig_text and parser (9 configurations incl. several span kinds under one synonym and token patterns with context assertions (^, \\b, look-behind, $), one where BOM / NUL / zero-width characters are blanks and combining marks / astral characters are letters, texts with such characters at the start of the text, of a line, inside tokens, '\\r' and '\\r\\n' line ends; 17 grammars incl. 8 that roll back into empty / all-nullable "
     "alternatives and a ProdSequence, both smart_factorization values, str / list / tuple input); the oracle restates "
     "the property on the real objects. Caveats: for a `str` the token theorems speak about the right-stripped lines "
     "the tokenizer iterates over (trailing blanks of a line are in no token); the orig-text theorems of nodes assume "
@@ -1169,7 +1194,8 @@ LEVEL_NOTE = (
     "zero-width match makes the model stop with OUT-OF-FUEL, as the real loop never ends. (4) node_span assumes the "
     "tree does not swallow $END$ (hk), which parse_node_span proves for every tree the parse returns. Each "
     "conditional theorem has an `example` in Props/C04.lean on which all its hypotheses hold. "
-    "Kernel-checked theorems (C04.*): tok_adjacent, tok_line_start, tok_monotone, tok_orig_text, orig_text_exact, "
+    "Kernel-checked theorems (C04.*): tok_adjacent, tok_line_start, tok_monotone, tok_provenance (every token is one match at its own (line, column); a span is closed by the "
+    "body matcher of its opener's own group), tok_orig_text, orig_text_exact, "
     "tok_cover, tok_cover_unique, end_token, node_span, node_span_unique, node_orig_text, parse_is_ll_run (forgetting "
     "positions gives the run of the LL model of C01), parse_node_span, parse_node_orig_text, parse_error_pos, "
     "lex_error_line, lex_error_first, lex_error_complete, lex_error_unique, no_out_of_fuel, bases_std (generated "
